@@ -265,6 +265,49 @@ pub fn pool(tier: Tier, seed: u64, thin: usize) -> Vec<Family> {
             }),
         });
     }
+    // F2c: values SOLVED so that two different nodes get the same 64-bit FNV-1a digest in the builder's node cache
+    // (a workload aimed at the cache: the mirror of the hash below only steers the input, it is never an oracle).
+    // Shape: {p1+x: 0, p1+y: o2, p2+x: d, p2+y: 0}: node(p1) = [(x,0,leaf),(y,o2,leaf)], node(p2) = [(x,d,leaf),(y,0,leaf)].
+    fams.push(Family {
+        name: "cache-digest-collision",
+        count: 48,
+        make: Box::new(move |i| {
+            let mut rng = Rng::new(seed, 0xF_C011 + i as u64);
+            const P: u64 = 1099511628211;
+            let step = |h: u64, v: u64| (h ^ v).wrapping_mul(P);
+            let x = 1 + rng.below(120) as u8;
+            let y = x + 1 + rng.below(100) as u8;
+            let d = match i % 3 {
+                0 => 1 + rng.below(1000),
+                1 => rng.next() >> 8,
+                _ => rng.next(),
+            };
+            // digest of a non-final node without final output, as the cache computes it
+            let h0 = step(step(14695981039346656037, 0), 0);
+            // node(p1): after (x, out 0, addr 0) and input y
+            let a = step(step(step(step(h0, x as u64), 0), 0), y as u64);
+            // node(p2): after (x, out d, addr 0) and input y
+            let b = step(step(step(step(h0, x as u64), d), 0), y as u64);
+            let o2 = a ^ b; // then (a ^ o2) == (b ^ 0): the remaining steps are identical
+            let (p1, p2): (Vec<u8>, Vec<u8>) = match (i / 3) % 4 {
+                0 => (b"a".to_vec(), b"b".to_vec()),
+                1 => (b"k".to_vec(), b"kz".to_vec()),
+                2 => (vec![0x00], vec![0xff, 0x01]),
+                _ => (b"pre".to_vec(), b"prf".to_vec()),
+            };
+            let mut kv: Kv = vec![];
+            for (p, vx, vy) in [(&p1, 0u64, o2), (&p2, d, 0u64)].iter() {
+                let mut k = (*p).clone();
+                k.push(x);
+                kv.push((k, *vx));
+                let mut k = (*p).clone();
+                k.push(y);
+                kv.push((k, *vy));
+            }
+            kv.sort();
+            Case { set: false, kv, family: "cache-digest-collision", index: i }
+        }),
+    });
     // F3: single bytes: each byte alone, all 256 together, as second byte
     fams.push(fam("single-bytes", 256 * 2 + 4, seed, |i, rng| {
         if i < 256 {
